@@ -1,5 +1,5 @@
 """Sidecar contracts: which real function is checked against which specification."""
-from pyvc.verify import Contract, Cut, STR, INT, BOOL, OPT, URLT, UNION, CONST
+from pyvc.verify import Contract, Cut, Lemma, STR, INT, BOOL, OPT, URLT, UNION, CONST
 
 from . import spec_parse, spec_url
 
@@ -81,3 +81,19 @@ add(Contract("yarl._url:URL.relative", [("self", URLT)], spec=spec_url.relative,
              props=("C11", "C19")))
 add(Contract("yarl._url:URL._origin", [("self", URLT)], spec=spec_url.origin, requires=spec_url.origin_requires,
              raises=(ValueError,), props=("C11", "C19")))
+
+# ---------------------------------------------------------------- C10
+_NONURL = CONST(1, "http://a", None)
+for _m, _s in (("__eq__", spec_url.eq), ("__lt__", spec_url.lt), ("__le__", spec_url.le),
+               ("__gt__", spec_url.gt), ("__ge__", spec_url.ge)):
+    add(Contract(f"yarl._url:URL.{_m}", [("self", URLT), ("other", UNION(URLT, _NONURL))], spec=_s, props=("C10", "C19")))
+add(Contract("yarl._url:URL.__hash__", [("self", URLT)], spec=spec_url.hash_, props=("C10", "C08")))
+add(Contract("yarl._url:URL._cmp_val", [("self", URLT)], spec=spec_url.cmp_key, props=("C10",)))
+
+add(Lemma(spec_url.lemma_order_coherent, [("a", URLT), ("b", URLT)], props=("C10",),
+          note="trichotomy, <= / >= consistency, eq => equal hash, symmetry"))
+add(Lemma(spec_url.lemma_eq_transitive, [("a", URLT), ("b", URLT), ("c", URLT)], props=("C10",)))
+add(Lemma(spec_url.lemma_eq_reflexive, [("a", URLT)], props=("C10",)))
+
+add(Contract("yarl._url:URL.with_fragment", [("self", URLT), ("fragment", UNION(OPT(STR), CONST(1, b"f")))],
+             spec=spec_url.with_fragment, raises=(TypeError,), props=("C11", "C19", "C10", "C08", "C09")))
